@@ -67,6 +67,11 @@ def check_curve(ctx, sy, grid, mean, inp):
     with sim.record_integrate(sy) as calls:
         sim.dirty_heap(ctx.rng, len(g))
         W = [float(v) for v in sr.compute_rise_curve(sy, g, mean)]
+    if len(W) != len(grid):
+        ctx.violation("impl-violation", "c17Holds", {"input": inp, "impl": W, "oracle": {
+            "name": "c17Holds", "result": False,
+            "witness": {"why": "the curve does not have one value per grid level", "levels": len(grid), "values": len(W)}}})
+        return W
     m = ctx.driver.call("curve.f", {"grid": [f2h(x) for x in grid], "cells": [f2h(c[2]) for c in calls], "mean": f2h(mean)})
     cum = [h2f(v) for v in m["cumulative"]]
     cur = [h2f(v) for v in m["curve"]]
@@ -133,6 +138,7 @@ def run(ctx):
             check_curve(ctx, sy, grid, mean, {"parameters": params, "grid": grid, "mean": mean})
     # the command
     ob_cli = "`spowtd simulate rise` rows = (level mm ascending, measured, simulated on the measured curve's levels and mean)"
+    n_cli_done = 0
     for _ in range(ncli):
         tr = P.gen_truth(rng, noise=rng.choice([0.0, 0.4]))
         zstep = rng.choice([1.0, 0.5, 2.0])
@@ -140,6 +146,7 @@ def run(ctx):
         if w["status"].get("rise", ("x",))[0] != "ok":
             P.cleanup(w)
             continue
+        n_cli_done += 1
         view = w["tables"]["average_rising_depth"]
         levels = [r[0] for r in view]
         measured = [r[1] for r in view]
@@ -187,6 +194,9 @@ def run(ctx):
         if wit is not None:
             ctx.violation("impl-violation", "c17Holds", {"input": inp, "impl": rows[:5],
                           "oracle": {"name": "c17Holds", "result": False, "witness": wit}})
+    if n_cli_done == 0:
+        ctx.corr_break(ob_cli, {"input": None, "no_longer_checks": "no planted dataset got as far as `simulate rise` "
+                                "(load / classify / set-zeta-grid / rise fail on every one)"})
 
 
 def replay(ctx, doc):
